@@ -637,6 +637,10 @@ class Scheduler:
                     return JobState.ERROR
 
                 job.state = state
+                if state == JobState.WAITING and job.unsatisfied == 0:
+                    # Dependencies were satisfied while the start was being aborted
+                    job.state = JobState.READY
+                    job._readyEvent.set()
 
         for listener in self.listeners:
             try:
